@@ -25,6 +25,10 @@ type Rig struct {
 	Mk func(n int) *refsmtp.Conn
 	// Wrap optionally wraps the connection handed to go-mail (e.g. tls.Client for implicit TLS).
 	Wrap func(c *refsmtp.Conn) net.Conn
+	// OnDial, when set, runs inside every dial just before the connection is handed out (the dial itself ignores
+	// its context, like a dialer that completes in spite of a cancellation): used to end the caller's context
+	// while the dial is in flight.
+	OnDial func(n int)
 }
 
 func (r *Rig) Dial(ctx context.Context, network, address string) (net.Conn, error) {
@@ -38,6 +42,9 @@ func (r *Rig) Dial(ctx context.Context, network, address string) (net.Conn, erro
 	r.Conns = append(r.Conns, c)
 	r.Addrs = append(r.Addrs, address)
 	r.mu.Unlock()
+	if r.OnDial != nil {
+		r.OnDial(n)
+	}
 	if r.Wrap != nil {
 		return r.Wrap(c), nil
 	}
